@@ -77,6 +77,14 @@ theorem chainCode_nat (ops : List (BOp × RA)) :
   | nil => simp [chainCode]
   | cons p rest ih => obtain ⟨op, y⟩ := p; simp [chainCode, opCode_nat, ih]
 
+theorem linCode_nat (e : LExpr) :
+    linCode (f n) (fun a => f (r a)) e = (linCode n r e).map fun p => (p.1, f p.2) := by
+  induction e with
+  | pair a op b => simp [linCode, loadA_nat, opCode_nat]
+  | left e op y ih => simp [linCode, ih, opCode_nat]
+  | right x op e ih =>
+    by_cases h : (op == BOp.sub) = true <;> simp [linCode, ih, h, loadA_nat, opCode_nat]
+
 theorem asgWCode_nat (v : String) (a : WA) :
     asgWCode (fun a => f (r a)) v a = (asgWCode r v a).map fun p => (p.1, f p.2) := by
   simp [asgWCode]
@@ -90,7 +98,7 @@ theorem binWCode_nat (v : String) (op : BOp) (x y : WA) :
 
 theorem rtemplate_nat (zp : String → Bool) (s : RStmt) :
     rtemplate (f n) (fun a => f (r a)) zp s = (rtemplate n r zp s).map fun p => (p.1, f p.2) := by
-  cases s <;> simp [rtemplate, asgCode_nat, binCode_nat, incCode_nat, asgWCode_nat, binWCode_nat, chainCode_nat, loadA_nat, storeA_nat, opCode_nat]
+  cases s <;> simp [rtemplate, asgCode_nat, binCode_nat, incCode_nat, asgWCode_nat, binWCode_nat, chainCode_nat, loadA_nat, storeA_nat, opCode_nat, linCode_nat]
 
 end nat
 
